@@ -134,7 +134,7 @@ def build(run):
     # ---- K-C08-c: intent lexer (shared with C19) and K-C08-e: preference setter (shared with C12) -----------------------------
     from checks import C19, C12
     ntok = 3 if run.tier == "quick" else 4
-    crate3, _ = C19.lexer_crate(run, "c08lex", ntok)
+    crate3, _ = C19.lexer_crate(run, "c08lex", ntok)          # 13-char alphabet (<= 2 bytes per char) in both tiers
     lem = C19.lexer_lemma(run, crate3, ntok)
     lem["id"] = "K-C08-c.intent_lexer_step"
     crate4, lemmas4 = C12.kernel(run, "c08prefs")
